@@ -300,16 +300,16 @@ def model_check(cfg, seed, coverage=False, timeout=3000, workers=NCPU, expect_vi
         res["violated_invariant"] = mm.group(1)
         i = r["out"].find("Error: Invariant")
         res["counterexample"] = r["out"][i:i + 6000]
-        mm = re.search(r"/\\ labels = (\{[^}]*\})", r["out"][i:])
-        if mm:
-            res["labels"] = mm.group(1)
+        found = re.findall(r"/\\ labels = (\{[^}]*\})", r["out"][i:])
+        if found:
+            res["labels"] = found[-1]
     elif not res["ok"]:
         res["tail"] = r["out"][-1500:]
     if coverage:
         taken = {}
         for a in MODEL_ACTIONS:
             tot = 0
-            for mm in re.finditer(r"<%s line \d+, col \d+ to line \d+, col \d+ of module MxFormula>: (\d+):(\d+)" % a,
+            for mm in re.finditer(r"<%s line \d+, col \d+ to line \d+, col \d+ of module MxFormula(?: \([\d ]+\))?>: (\d+):(\d+)" % a,
                                   r["out"]):
                 tot += int(mm.group(2))
             taken[a] = tot
